@@ -10,7 +10,7 @@ EXPLANATION = ('Decides on the MIR of the current tree: every function that inse
                'name index on every successful path; a rename removes the old name before inserting the new one and stores the same name in the entity; inserts are dominated by the '
                '"not contained" tests of both the name and the id; no error is returned after a catalogue map was already written; deletes cascade to every nested entity and to client '
                'memberships; ids passed between catalogue functions have the kind their parameter is declared for; index-based removals from a Vec inside a loop run in reverse order. '
-               'Not decided: equivalence with the sequential map for every command sequence; effects of I/O failures mid-command.')
+               'Also: a consumer group records the partition count it is given on every path; no may-panic site in the catalogue operations is unguarded or unlisted; map accesses use keys of the kind the map holds. Not decided: equivalence with the sequential map for every command sequence; effects of I/O failures mid-command.')
 ASSUMPTIONS = ['catalogue mutators take &mut self (checked from item facts), so mutation is exclusive by type']
 
 ST = 'server::streaming::'
